@@ -173,6 +173,11 @@ def joint_stack(draw, p, cls):
     if lim == 'all' or (lim in ('some', 'wide') and draw(st.integers(0, 2)) == 0):
       if lim == 'wide':
         j['range'] = [draw(fl(-3.2, -2.6)), draw(fl(2.6, 3.2))]
+      elif draw(st.integers(0, 3)) == 0:
+        # a range that excludes 0 (a lift, a pre-bent knee)
+        lo = draw(fl(0.1, 0.6))
+        hi = lo + draw(fl(0.3, 1.2))
+        j['range'] = [lo, hi] if draw(st.booleans()) else [-hi, -lo]
       else:
         lo = draw(fl(-2.5, -0.3))
         j['range'] = [lo, draw(fl(0.3, 2.5))]
@@ -191,6 +196,7 @@ def geom(draw, p):
 
 
 CLASSES = ['free_root', 'fixed_root', 'slide_on_rotated', 'stack', 'anchor', 'actuated', 'plain', 'fixed_then_free']
+# 'single' (every non-free body has exactly one joint) is accepted by model_spec but not part of the default rotation
 
 
 def enumerate_forests(max_n, min_n=1):
@@ -269,7 +275,7 @@ def model_spec(draw, p=None, cls=None, shape=None):
         free = draw(st.booleans())
     else:
       free = False
-    bcls = cls if new_i == special_body else None
+    bcls = cls if (new_i == special_body or cls == 'single') else None
     if cls in ('stack', 'anchor') and not free:
       bcls = bcls or (cls if draw(st.booleans()) else None)
     b = {'parent': remap[pa] if pa != -1 else -1, 'free': free}
@@ -361,6 +367,8 @@ def to_xml(spec, custom=None, strip_limits=False, no_collide=False, extra_option
       out.append(f'{s}  <joint {a}/>')
     for gi, g in enumerate(b['geoms']):
       c = '' if (g.get('collide') and not no_collide) else ' contype="0" conaffinity="0"'
+      if g.get('margin'):
+        c += f' margin="{float(g["margin"])!r}"'
       loc = f'fromto="{fmt(g["fromto"])}"' if 'fromto' in g else f'pos="{fmt(g["pos"])}" quat="{fmt(g["quat"])}"'
       size = g['size'][:1] if 'fromto' in g else g['size']
       out.append(f'{s}  <geom name="{px}g{i}_{gi}" type="{g["type"]}" size="{fmt(size)}" {loc} '
